@@ -18,7 +18,8 @@ RULE = ("Hypothesis draws (N,W) with NW<=60, a PSD covariance S (sample covarian
         "from (Theta, S, lambda) only, with an independent enumeration of the Toeplitz classes. Unconditional clause: rho=1, "
         "no callback, spectrum of S in [0.25,4], lambda in [0,1] in all three forms -> the hook must report that the stop rule "
         "fired within the 1000-iteration budget. Non-trivial = stop rule fired, NW>=4, and the solution has at least one class "
-        "whose mean is beyond the zero threshold and at least one below it (sparsity active); distinct by SHA-1 of the case.")
+        "whose mean is beyond the zero threshold and at least one below it (sparsity active); distinct by SHA-1 of the case."
+        ' Covariances also as int64/int32/float32 arrays and nested lists of integers.')
 ASSUMPTIONS = [
     "guarded hook admm_exit reports iterations and whether the stopping rule fired (not otherwise observable)",
     "certificate slack = solver's documented tolerances + 0.1% + an explicit bound on the error of the computed inverse",
@@ -123,6 +124,9 @@ def general_case(draw):
         "tols": draw(st.sampled_from([None, None, [1e-6, 1e-4], [1e-8, 1e-8], [1e-4, 1e-6]])),
         "max_iterations": draw(st.sampled_from([None, 400, 150])),
         "reuse_buffers": draw(st.booleans()),
+        # a covariance with integer entries handed over in an integer element type or as nested lists (a count matrix, np.diag of
+        # ints): the same matrix, so the same answer
+        "S_container": draw(st.sampled_from([None, None, None, None, "int64", "int32", "nested_list", "float32"])),
     }
 
 
@@ -151,6 +155,23 @@ def execute(case, t):
         if isinstance(lam, np.ndarray):
             lam = buffers.reuse("C02.lam", lam)
         t.cls("caller_buffers_reused")
+    S_arg = S
+    if case.get("S_container"):
+        # integer-valued PSD matrix G^T G / 4 from a rounded factor of S (entries are multiples of 1/4 -> times 4 is integral)
+        w_, v_ = np.linalg.eigh((S + S.T) / 2)
+        G = np.round((v_ * np.sqrt(np.clip(w_, 0, None))).T * 2.0)
+        Sint = G.T @ G                      # integer entries, PSD
+        if not np.any(Sint):
+            Sint = np.eye(n)
+        S = Sint.astype(np.float64)
+        kind_ = case["S_container"]
+        if kind_ in ("int64", "int32"):
+            S_arg = Sint.astype(kind_)
+        elif kind_ == "float32":
+            S_arg = Sint.astype(np.float32) if float(np.max(np.abs(Sint))) < 2 ** 24 else S
+        else:
+            S_arg = [[int(v) for v in row] for row in Sint]
+        t.cls(f"covariance_given_as_{kind_}")
     S0 = S.copy()
     lam0 = lam.copy() if isinstance(lam, np.ndarray) else lam
     events = []
@@ -169,7 +190,7 @@ def execute(case, t):
         kwargs["max_iterations"] = case["max_iterations"]
     try:
         try:
-            res = solve(S, lam, W, N, **kwargs)
+            res = solve(S_arg, lam, W, N, **kwargs)
         except Exception as e:
             if case.get("unconditional"):
                 raise Violation(f"optimiser raised {type(e).__name__}: {e} in the regime where it must always stop within budget")
